@@ -106,6 +106,17 @@ pub enum ValD {
     Nothing,
 }
 
+/// The validation error a `ValD::Error(text)` reports: one reason per " && "-separated part of the
+/// text (an error value may carry several reasons).
+pub fn error_of(text: &str) -> metrique_writer_core::ValidationError {
+    let mut parts = text.split(" && ");
+    let mut e = metrique_writer_core::ValidationError::invalid(parts.next().unwrap_or(""));
+    for p in parts {
+        e.extend(metrique_writer_core::ValidationError::invalid(p));
+    }
+    e
+}
+
 impl Value for ValD {
     fn write(&self, writer: impl ValueWriter) {
         match self {
@@ -137,7 +148,7 @@ impl Value for ValD {
                     (false, false) => writer.metric(o_loose, unit.unit(), d_loose, flags),
                 }
             }
-            ValD::Error(m) => writer.invalid(m.clone()),
+            ValD::Error(m) => writer.error(error_of(m)),
             ValD::Nothing => {}
         }
     }
